@@ -231,92 +231,120 @@ def check_merge(ctx):
     axv = U(lp.target)
     ok_it = U(lp.iter) in ("np.flatnonzero(grid.periodic)", "np.nonzero(grid.periodic)[0]", "np.where(grid.periodic)[0]")
     ctx.decide(ok_it, "MERGE", site + ":axes", (fi, lp), "every periodic axis is processed", f"merging iterates `{U(lp.iter)}` instead of all periodic axes")
-    # mean
-    means = [s for s in ast.walk(lp) if isinstance(s, ast.Assign) and isinstance(s.value, ast.BinOp) and isinstance(s.value.op, ast.Div)]
-    okm = False
-    if means:
-        s = means[0]
-        try:
-            e = Converter().conv(s.value)
-            atoms = sorted(e.atoms())
-            ex = fv.expand(s.value, s, stop=("positions", "volumes", "labels", "grid", axv))
-            # names bound by tuple assignment: v_l, v_h = volumes[i_l-1], volumes[i_h-1]
-            okm = True
-            pl, ph, vl, vh = "pos_l", "pos_h", "v_l", "v_h"
-            want = (Expr.atom(pl) * Expr.atom(vl) + Expr.atom(ph) * Expr.atom(vh)) * (Expr.atom(vl) + Expr.atom(vh)).inverse()
-            # accept any naming: two position atoms, two volume atoms
-            if len(atoms) >= 4:
-                names = sorted(names_in(s.value))
-                okm = False
-                import itertools
+    side = {}  # list name -> 'low' | 'high'
 
-                for a, b, c, d in itertools.permutations(names, 4):
-                    w = (Expr.atom(a) * Expr.atom(c) + Expr.atom(b) * Expr.atom(d)) * (Expr.atom(c) + Expr.atom(d)).inverse()
-                    if w == e:
-                        pl, ph, vl, vh = a, b, c, d
-                        okm = True
-                        break
-        except NotAlgebraic:
-            okm = False
-        ctx.decide(okm, "MERGE", site + ":mean", (fi, s), "merged position = volume-weighted mean of the two clusters' positions",
-                   f"merged position `{U(s.value)[:70]}` is not (p₁·V₁ + p₂·V₂)/(V₁ + V₂)")
-    else:
-        ctx.violate("MERGE", site + ":mean", (fi, lp), "no volume-weighted mean of the two cluster positions")
-        return
-    # tuple bindings
-    bind = {}
+    def res(expr, at):
+        return fv.expand(expr, at, stop=("positions", "volumes", "labels", "grid", axv) + tuple(side), allow_mutated=True, depth=10)
+
+    conv = Converter()
+    # ---- which index list is the low / the high boundary?
+    for c in ast.walk(lp):
+        if isinstance(c, ast.Call) and isinstance(c.func, ast.Attribute) and c.func.attr == "append" and len(c.args) == 1 and isinstance(c.args[0], ast.List) and len(c.args[0].elts) == 1:
+            v = U(c.args[0].elts[0])
+            if v in ("0", "-1"):
+                side[U(c.func.value)] = "low" if v == "0" else "high"
+    zl = [s for s in ast.walk(lp) if isinstance(s, ast.For) and isinstance(s.iter, ast.Call) and dotted(s.iter.func) == "zip" and len(s.iter.args) == 2]
+    idx_side = {}
+    if zl and isinstance(zl[0].target, ast.Tuple) and len(zl[0].target.elts) == 2:
+        for tv, a in zip(zl[0].target.elts, zl[0].iter.args):
+            lists = [n.id for n in ast.walk(a) if isinstance(n, ast.Name) and n.id in side]
+            if len(lists) == 1:
+                idx_side[U(tv)] = side[lists[0]]
+    # ---- the mean
+    means = []
     for s in ast.walk(lp):
-        if isinstance(s, ast.Assign) and isinstance(s.targets[0], ast.Tuple) and isinstance(s.value, ast.Tuple) and len(s.targets[0].elts) == len(s.value.elts):
-            for t, v in zip(s.targets[0].elts, s.value.elts):
-                bind[U(t)] = U(v)
-    okb = okm and bind.get(vl, "").startswith("volumes[") and bind.get(vh, "").startswith("volumes[") and bind.get(pl, "").startswith("positions[") and bind.get(ph, "").startswith("positions[") \
-        and bind.get(vl, "")[8:] == bind.get(pl, "")[10:] and bind.get(vh, "")[8:] == bind.get(ph, "")[10:] and bind.get(vl) != bind.get(vh)
-    ctx.decide(bool(okb), "MERGE", site + ":operands", (fi, means[0]), "positions and volumes of the same two labels enter the mean",
-               f"the weighted mean does not pair each cluster's position with its own volume (bindings {bind})")
-    # shift by one period in cell units, on the upper cluster, before the mean
+        if isinstance(s, ast.Assign) and isinstance(s.targets[0], ast.Name):
+            r = res(s.value, s)
+            if isinstance(r, ast.BinOp) and isinstance(r.op, ast.Div) and "positions[" in U(r) and "volumes[" in U(r):
+                means.append((s, r))
+    if len(means) != 1:
+        ctx.violate("MERGE", site + ":mean", (fi, lp), "no volume-weighted mean of the two cluster positions inside the periodic merge loop")
+        return
+    ms, mr = means[0]
+    try:
+        e = conv.conv(mr)
+    except NotAlgebraic as exc:
+        ctx.undecided("MERGE", site + ":mean", (fi, ms), str(exc))
+        return
+    pos_atoms = sorted(a for a in e.atoms() if a.startswith("positions["))
+    vol_atoms = sorted(a for a in e.atoms() if a.startswith("volumes["))
+    okm = False
+    pair = None
+    if len(pos_atoms) == 2 and len(vol_atoms) == 2:
+        for (p1, p2) in ((pos_atoms[0], pos_atoms[1]), (pos_atoms[1], pos_atoms[0])):
+            v1, v2 = "volumes[" + p1[len("positions["):], "volumes[" + p2[len("positions["):]
+            want = (Expr.atom(p1) * Expr.atom(v1) + Expr.atom(p2) * Expr.atom(v2)) * (Expr.atom(v1) + Expr.atom(v2)).inverse()
+            if e == want:
+                okm = True
+                pair = (p1, p2, v1, v2)
+    ctx.decide(okm, "MERGE", site + ":mean", (fi, ms), "merged position = volume-weighted mean of the two clusters' positions, each position weighted with the same cluster's volume",
+               f"merged position `{U(ms.value)[:70]}` (= {e.show()[:120]}) is not (p₁·V₁ + p₂·V₂)/(V₁ + V₂) with each cluster's own volume")
+    if not okm:
+        return
+    p1, p2, v1, v2 = pair
+    ctx.hold("MERGE", site + ":operands", (fi, ms), f"operands {p1}, {p2} with {v1}, {v2}")
+    # ---- in-loop modifications of positions before the mean: exactly the one-period shift of the upper cluster
     mods = []
+    mean_name = U(ms.targets[0])
     for s in ast.walk(lp):
         if isinstance(s, ast.AugAssign) and isinstance(s.target, ast.Subscript):
-            mods.append(s)
-        elif isinstance(s, ast.Assign) and isinstance(s.targets[0], ast.Subscript) and U(s.targets[0].value) not in ("positions", "volumes", "labels", "low", "high"):
-            mods.append(s)
-    shifts = [s for s in mods if isinstance(s, ast.AugAssign) and isinstance(s.op, ast.Sub) and U(s.value) == f"grid.shape[{axv}]" and U(s.target.slice) == axv]
+            base = res(s.target.value, s)
+            if U(base).startswith("positions[") or U(s.target.value) == mean_name:
+                mods.append((s, U(base)))
+        elif isinstance(s, ast.AugAssign) and U(s.target) == mean_name:
+            mods.append((s, mean_name))
+        elif isinstance(s, ast.Assign) and isinstance(s.targets[0], ast.Subscript) and isinstance(s.targets[0].value, ast.Name) and s.targets[0].value.id not in ("positions", "volumes", "labels"):
+            base = res(s.targets[0].value, s)
+            if U(base).startswith("positions[") or U(s.targets[0].value) == mean_name:
+                mods.append((s, U(base)))
+        elif isinstance(s, ast.Assign) and U(s.targets[0]) == mean_name and s is not ms:
+            mods.append((s, mean_name))
+    shifts = [(s, b) for s, b in mods if isinstance(s, ast.AugAssign) and isinstance(s.op, ast.Sub) and U(s.value) == f"grid.shape[{axv}]" and U(s.target.slice) == axv]
     oks = len(shifts) == 1 and len(mods) == 1
     high_side = False
     if oks:
-        tgt = U(shifts[0].target.value)
-        # the shifted cluster is the one found on the high boundary index (-1)
-        hb = bind.get(tgt, "")
-        idxs = {}
-        for s in ast.walk(lp):
-            if isinstance(s, ast.Assign) and isinstance(s.targets[0], ast.Tuple) and U(s.value).startswith("(labels["):
-                for t, v in zip(s.targets[0].elts, s.value.elts):
-                    idxs[U(t)] = U(v)
-        for k, v in idxs.items():
-            if k in hb:
-                high_side = v == "labels[h]"
-        oks = fv.dominates(shifts[0], means[0])
-    ctx.decide(bool(oks and high_side), "MERGE", site + ":shift", (fi, shifts[0]) if shifts else (fi, lp),
+        sh, base = shifts[0]
+        # base = positions[labels[<idx>] - 1]: idx must be the high-boundary index
+        for iv, sd in idx_side.items():
+            if f"labels[{iv}]" in base:
+                high_side = sd == "high"
+        oks = fv.dominates(sh, ms)
+    ctx.decide(bool(oks and high_side), "MERGE", site + ":shift", (fi, shifts[0][0]) if shifts else (fi, lp),
                "the cluster on the upper boundary is shifted down by exactly one period (grid.shape[ax] cells, positions are in cell units) before averaging; nothing else modifies positions inside the loop",
                "inside the periodic merge loop positions are modified other than by the single shift `pos_upper[ax] -= grid.shape[ax]` before the mean "
-               f"({[U(s)[:50] for s in mods]}): e.g. wrapping the merged position inside the loop breaks clusters that straddle two periodic boundaries (a later merge averages images that are a period apart)")
-    # volumes add and both labels updated, relabel
-    va = [s for s in ast.walk(lp) if isinstance(s, ast.Assign) and len(s.targets) == 2 and all(U(t).startswith("volumes[") for t in s.targets)]
-    okv = False
-    if va and okm:
+               f"({[U(s)[:50] for s, _ in mods]}): e.g. wrapping the merged position inside the loop breaks clusters that straddle two periodic boundaries (a later merge averages images that are a period apart)")
+    # ---- stores: both clusters get the merged position and the summed volume; relabel
+    pstores, vstores = {}, {}
+    for s in ast.walk(lp):
+        if isinstance(s, ast.Assign) and isinstance(s.targets[0], ast.Subscript):
+            t = U(res(s.targets[0], s)) if False else U(ast.Subscript(value=s.targets[0].value, slice=res(s.targets[0].slice, s), ctx=ast.Load()))
+            if t.startswith("positions["):
+                pstores[t] = s
+            elif t.startswith("volumes["):
+                vstores[t] = s
+    okp = set(pstores) == {p1, p2} and all(U(res(s.value, s)) == U(mr) or U(s.value) == U(ms.targets[0]) for s in pstores.values())
+    okv = set(vstores) == {v1, v2}
+    if okv:
         try:
-            okv = Converter().conv(va[0].value) == Expr.atom(vl) + Expr.atom(vh)
+            okv = all(conv.conv(res(s.value, s)) == Expr.atom(v1) + Expr.atom(v2) for s in vstores.values())
         except NotAlgebraic:
             okv = False
-    pa = [s for s in ast.walk(lp) if isinstance(s, ast.Assign) and len(s.targets) == 2 and all(U(t).startswith("positions[") for t in s.targets)]
     rl = [s for s in ast.walk(lp) if isinstance(s, ast.Assign) and U(s.targets[0]).startswith("labels[labels ==")]
-    ctx.decide(bool(okv and len(pa) == 1 and len(rl) == 1), "MERGE", site + ":update", (fi, va[0]) if va else (fi, lp),
+    ctx.decide(bool(okv and okp and len(rl) == 1), "MERGE", site + ":update", (fi, list(vstores.values())[0]) if vstores else (fi, lp),
                "both clusters get the summed volume and the merged position; one label is replaced by the other",
                "after a merge the two clusters do not both carry V₁ + V₂ and the merged position, with one label replaced by the other")
-    # merge condition
-    conds = [s for s in ast.walk(lp) if isinstance(s, ast.If)]
-    okc = any(U(s.test) in ("i_l > 0 and i_h > 0 and i_l != i_h", "i_l > 0 and i_h > 0 and (i_l != i_h)") for s in conds)
-    ctx.decide(okc, "MERGE", site + ":condition", (fi, conds[0]) if conds else (fi, lp), "two different non-background labels facing each other across the boundary are merged",
+    # ---- merge condition: both labels non-zero and different
+    conds = [s for s in ast.walk(lp) if isinstance(s, ast.If) and any(x is ms for x in ast.walk(s))]
+    okc = False
+    if conds:
+        from ..astutil import flat_tests
+
+        parts = {U(res(t, conds[-1])) for t, p in flat_tests(conds[-1].test) if p}
+        labs = sorted({f"labels[{iv}]" for iv in idx_side})
+        if len(labs) == 2:
+            a, b = labs
+            okc = parts in ({f"{a} > 0", f"{b} > 0", f"{a} != {b}"}, {f"{a} > 0", f"{b} > 0", f"{b} != {a}"})
+    ctx.decide(okc, "MERGE", site + ":condition", (fi, conds[-1]) if conds else (fi, lp), "two different non-background labels facing each other across the boundary are merged",
                "merge condition is not (both labels non-zero and different)")
 
 
@@ -334,16 +362,15 @@ def check_cylindrical(ctx):
         t = tests[0].test
         where = tests[0]
         ops = tuple(type(o) for o in t.ops)
-        lo, mid, hi = U(t.left), U(t.comparators[0]), U(t.comparators[1])
-        bounds = [s for s in fv.statements() if isinstance(s, ast.Assign) and U(s.targets[0]) == f"({lo}, {hi})"]
-        okb = len(bounds) == 1 and U(bounds[0].value) == "grid.axes_bounds[1]"
-        half_open = ops in ((ast.LtE, ast.Lt), (ast.Lt, ast.LtE))
+        lo, mid, hi = (U(fv.expand(x, tests[0], allow_mutated=True, stop=("grid", "mask"))) for x in (t.left, t.comparators[0], t.comparators[1]))
+        okb = (lo, hi) in (("grid.axes_bounds[1][0]", "grid.axes_bounds[1][1]"), ("mask.grid.axes_bounds[1][0]", "mask.grid.axes_bounds[1][1]"))
+        half_open = ops in ((ast.LtE, ast.Lt),)
         ok = okb and half_open and mid.endswith(".position[2]")
         detail = f"`{U(t)}`"
         if okb and not half_open:
             ctx.violate("WINDOW", site, (fi, tests[0]),
                         f"the window {detail} that selects one periodic image is closed on both sides: a droplet centred exactly on the periodic boundary is kept twice (at z_min and at z_max)"
-                        if ops == (ast.LtE, ast.LtE) else f"the window {detail} is open on both sides: a droplet centred exactly on the periodic boundary is dropped")
+                        if ops == (ast.LtE, ast.LtE) else f"the window {detail} is not the half-open interval [z_min, z_max): a droplet centred exactly on the periodic boundary is dropped or kept at the wrong end")
             ok = None
     if ok is not None:
         ctx.decide(bool(ok), "WINDOW", site, (fi, where), "exactly one periodic image is kept: z_min ≤ z < z_max with the bounds of the periodic axis",
@@ -389,17 +416,50 @@ def check_cylindrical(ctx):
     # on-axis selection and volumes in the single-grid helper
     h = m.func(CYL1)
     hv = view(m, h)
-    sel = [s for s in hv.statements() if isinstance(s, ast.If) and U(s.test) == "slices[0].start == 0"]
-    ctx.decide(len(sel) == 1, "FLOW", CYL1 + ":on-axis", (h, sel[0]) if sel else h, "only clusters containing the symmetry axis (radial slice starts at 0) are located",
-               "clusters are not selected by slices[0].start == 0 (touching the symmetry axis)")
+    hsi = stmt_index(hv)
+    # the label list is filled exactly for clusters whose radial slice starts at 0, with the label (1-based) of that cluster
+    app = [c for c in hv.calls() if isinstance(c.func, ast.Attribute) and c.func.attr == "append" and U(c.func.value) == "indices"]
+    ok_sel = False
+    if len(app) == 1:
+        conds = set()
+        for t, p in hsi.effective_guards(app[0]):
+            cp = compare_parts(t)
+            if cp is not None:
+                conds.add((U(hv.expand(cp[0], app[0], allow_mutated=True, stop=("object_slices", "labels", "mask", "grid"))), type(cp[1]).__name__, U(cp[2]), p))
+        lpq = hsi.enclosing(app[0], (ast.For,))
+        lab = U(hv.expand(app[0].args[0], app[0]))
+        if lpq is not None:
+            lp_ = lpq[0]
+            it = lp_.iter
+            one_based = False
+            sl_ok = False
+            if isinstance(it, ast.Call) and dotted(it.func) == "enumerate" and len(it.args) == 2 and U(it.args[0]) == "object_slices" and U(it.args[1]) == "1":
+                one_based = lab == U(lp_.target.elts[0])
+                slv = U(lp_.target.elts[1])
+                sl_ok = any(c in ((f"{slv}[0].start", "Eq", "0", True), (f"{slv}[0].start", "NotEq", "0", False)) for c in conds)
+            elif isinstance(it, ast.Call) and dotted(it.func) == "range" and U(it.args[0]) == "len(object_slices)":
+                iv = U(lp_.target)
+                one_based = lab.replace(" ", "") in (f"{iv}+1", f"1+{iv}")
+                sl_ok = any(c in ((f"object_slices[{iv}][0].start", "Eq", "0", True), (f"object_slices[{iv}][0].start", "NotEq", "0", False)) for c in conds)
+            ok_sel = one_based and sl_ok
+    ctx.decide(ok_sel, "FLOW", CYL1 + ":on-axis", (h, app[0]) if app else h, "exactly the clusters containing the symmetry axis (radial slice starts at 0) are located, identified by their 1-based label",
+               "the list of located clusters is not filled with the (1-based) label of exactly those clusters whose radial slice starts at 0")
     vol = [c for c in hv.calls() if (hv.callee(c) or "") in ("scipy.ndimage.sum_labels", "scipy.ndimage.sum")]
     okv = bool(vol) and all(U(c.args[0]) == "cell_volumes" and U(c.args[1]) == "labels" and U(kwarg(c, "index")) == "indices" for c in vol)
-    cv = [s for s in hv.statements() if isinstance(s, ast.Assign) and U(s.targets[0]) == "cell_volumes"]
-    okcv = len(cv) == 1 and U(cv[0].value) == "np.outer(vol_r, dz)" and any(isinstance(s, ast.Assign) and U(s.targets[0]) == "(vol_r, dz)" and U(s.value) == "grid.cell_volume_data" for s in hv.statements())
+    cvn = [s for s in hv.statements() if isinstance(s, ast.Assign) and U(s.targets[0]) == "cell_volumes"]
+    okcv = len(cvn) == 1 and U(hv.expand(cvn[0].value, cvn[0])).replace(" ", "") in ("np.outer(grid.cell_volume_data[0],grid.cell_volume_data[1])",)
     ctx.decide(okv and okcv, "DIM", CYL1 + ":volume", (h, vol[0]) if vol else h, "cluster volume = Σ of the cylindrical cell volumes (outer(vol_r, dz)) over the cluster's cells",
                "cluster volumes on cylindrical grids are not the per-label sum of np.outer(*grid.cell_volume_data)")
     cons = [c for c in hv.calls(nested=True) if U(c.func).endswith("from_volume")]
-    okk = len(cons) == 1 and U(cons[0].args[0]).replace(" ", "") in ("np.array([0,0,p[2]])", "np.array([0.0,0.0,p[2]])") and U(cons[0].args[1]) == "v"
+    okk = False
+    if len(cons) == 1:
+        gen = None
+        for n in ast.walk(h.node):
+            if isinstance(n, (ast.GeneratorExp, ast.ListComp)) and any(x is cons[0] for x in ast.walk(n)):
+                gen = n
+        if gen is not None and len(gen.generators) == 1 and isinstance(gen.generators[0].target, ast.Tuple) and U(gen.generators[0].iter) == "zip(pos, vol)":
+            pv, vv = (U(e) for e in gen.generators[0].target.elts)
+            okk = U(cons[0].args[0]).replace(" ", "") in (f"np.array([0,0,{pv}[2]])", f"np.array([0.0,0.0,{pv}[2]])") and U(cons[0].args[1]) == vv
     ctx.decide(okk, "FLOW", CYL1 + ":construct", (h, cons[0]) if cons else h, "droplets sit on the axis at the cluster's z (cartesian) with the cluster's volume",
                "droplets are not built as from_volume([0, 0, z_cluster], volume_cluster)")
 
@@ -408,9 +468,19 @@ def check_spherical(ctx):
     m = ctx.model
     fi = m.func(SPHR)
     fv = view(m, fi)
-    sel = [s for s in fv.statements() if isinstance(s, ast.If) and U(s.test) == "slices[0].start == 0"]
+    si = stmt_index(fv)
     rad = [s for s in fv.statements() if isinstance(s, ast.Assign) and U(s.targets[0]) == "radius"]
-    ok = len(sel) == 1 and len(rad) == 1 and U(rad[0].value).replace(" ", "") == "float(grid.transform(slices[0].stop,'cell','grid').flat[-1])"
+    ok = False
+    if len(rad) == 1:
+        lpq = si.enclosing(rad[0], (ast.For,))
+        slv = U(lpq[0].target) if lpq else "slices"
+        val = U(fv.expand(rad[0].value, rad[0], stop=("grid", slv))).replace(" ", "")
+        conds = set()
+        for t, p in si.effective_guards(rad[0]):
+            cp = compare_parts(t)
+            if cp is not None:
+                conds.add((U(fv.expand(cp[0], rad[0], stop=(slv,))), type(cp[1]).__name__, U(cp[2]), p))
+        ok = val == f"float(grid.transform({slv}[0].stop,'cell','grid').flat[-1])" and any(c in ((f"{slv}[0].start", "Eq", "0", True), (f"{slv}[0].start", "NotEq", "0", False)) for c in conds)
     ctx.decide(ok, "FLOW", SPHR + ":radius", (fi, rad[0]) if rad else fi, "radius = radial coordinate of the outer boundary (slice stop, a cell-boundary coordinate) of the cluster touching the origin",
                "the radius on radially symmetric grids is not grid.transform(slices[0].stop, 'cell', 'grid') of the cluster that starts at the origin")
     cons = [c for c in fv.calls() if U(c.func) == "SphericalDroplet" and kwarg(c, "radius") is not None and U(kwarg(c, "radius")) == "radius"]
